@@ -96,7 +96,7 @@ def to_ast(v, consts=None):
             if isinstance(x, App) and x.fn == "std::convert::From::from" and len(x.args) == 1 and isinstance(x.args[0], Const):
                 val = f32_of(x.args[0])
                 if consts is not None:
-                    consts.append(("from", x.args[0].ty, (x.info or {}).get("self_ty")))
+                    consts.append(("from", x.args[0].ty, (x.info or {}).get("self_ty"), val))
                 return ["num", repr(val)]
             raise Unrec("numeric constant does not enter through T::from(<literal>): %s" % show(x)[:80])
         if name == "without_latest_unary" and len(v.args) == 1:
